@@ -13,10 +13,10 @@ import (
 // the detector keeps seeing the program's own synchronisation only.
 
 const (
-	PolicyRandom = iota // random walk: switch after a drawn run length
-	PolicyPCT           // priorities with d change points
-	PolicyRoundRobin    // switch at every yield
-	PolicySerial        // run tasks to completion in a drawn order
+	PolicyRandom     = iota // random walk: switch after a drawn run length
+	PolicyPCT               // priorities with d change points
+	PolicyRoundRobin        // switch at every yield
+	PolicySerial            // run tasks to completion in a drawn order
 )
 
 const (
